@@ -10,7 +10,7 @@ from vlib.runner import Violation, sut
 from vlib.spec import build
 
 ID = "C02"
-BUDGET = {"quick": 1200, "thorough": 24000}
+BUDGET = {"quick": 1200, "thorough": 64000}
 RULE = ("Generated: (a) smooth&decomposable layer DAGs over every input type with constant layers, shared "
         "sub-circuits, 1..3 outputs incl. inner layers that also feed other layers, sibling sums with different "
         "parameterisations of equal shape; (b) operator pipelines of 1..3 operators (integrate, multiply, "
